@@ -90,7 +90,7 @@ Init ==
 H(r) == hist' = Append(hist, r)
 
 SubTerminal(b) == spc[b] \in {"ok", "expired", "stopped"}
-HoldsRLock(b)  == spc[b] \in {"begin", "send"}
+HoldsRLock(b)  == spc[b] \in {"begin", "waitTok", "send"}
 
 -----------------------------------------------------------------------------
 (* Submit                                                                  *)
@@ -131,17 +131,45 @@ SubAllocFail(b, why) ==
                    apc, acur, aproc, pend, nextSeq, inFlight, applied, results, finished,
                    cancelled, stopped, stopPc, drainPc, drainSnap, drainRead, drainVal>>
 
-SubRelease == IF Fixed THEN token' = 0 ELSE UNCHANGED token
+\* [fixed] gate sub.begin -> the submitter blocks in the select on the submit token, which another
+\* submitter holds (at most one waiter is modelled: with several, Go chooses the next holder at random)
+Waiters == {b \in Blocks : spc[b] = "waitTok"}
+SubGo(b) ==
+    /\ Fixed /\ spc[b] = "begin" /\ token # 0 /\ Waiters = {}
+    /\ spc' = [spc EXCEPT ![b] = "waitTok"]
+    /\ H([a |-> "SubGo", b |-> b])
+    /\ UNCHANGED <<quality, seqOf, seqCtr, token, subCnt, compCnt, ch, closed, wpc, wit, status,
+                   apc, acur, aproc, pend, nextSeq, inFlight, applied, results, finished,
+                   cancelled, stopped, stopPc, drainPc, drainSnap, drainRead, drainVal>>
+
+\* the waiting submitter's own context expires / the pipeline stops (forced: the token is busy)
+SubWaitFail(b, why) ==
+    /\ spc[b] = "waitTok"
+    /\ \/ why = "expired" /\ b \in MayExpire
+       \/ why = "stopped" /\ cancelled
+    /\ spc' = [spc EXCEPT ![b] = why]
+    /\ H([a |-> "SubWaitFail", b |-> b, out |-> why, forced |-> TRUE])
+    /\ UNCHANGED <<quality, seqOf, seqCtr, token, subCnt, compCnt, ch, closed, wpc, wit, status,
+                   apc, acur, aproc, pend, nextSeq, inFlight, applied, results, finished,
+                   cancelled, stopped, stopPc, drainPc, drainSnap, drainRead, drainVal>>
+
+\* releasing the token wakes the waiter, which takes the token, the NEXT sequence number (read
+\* after the release) and reaches gate sub.send
+Wake == IF Waiters = {} THEN 0 ELSE CHOOSE w \in Waiters : TRUE
 
 SubSend(b) ==
     /\ spc[b] = "send"
     /\ Len(ch[0]) < Cap
     /\ ch' = [ch EXCEPT ![0] = Append(@, b)]
-    /\ spc' = [spc EXCEPT ![b] = "ok"]
-    /\ IF Fixed THEN seqCtr' = seqCtr + 1 ELSE UNCHANGED seqCtr
-    /\ SubRelease
-    /\ H([a |-> "SubSend", b |-> b, forced |-> ~cancelled])
-    /\ UNCHANGED <<quality, seqOf, subCnt, compCnt, closed, wpc, wit, status,
+    /\ LET w == IF Fixed THEN Wake ELSE 0
+           nseq == IF Fixed THEN seqCtr + 1 ELSE seqCtr IN
+         /\ seqCtr' = nseq
+         /\ spc' = [spc EXCEPT ![b] = "ok", ![IF w = 0 THEN b ELSE w] = IF w = 0 THEN "ok" ELSE "send"]
+         /\ seqOf' = IF w = 0 THEN seqOf ELSE [seqOf EXCEPT ![w] = nseq]
+         /\ token' = IF Fixed THEN w ELSE token
+         /\ subCnt' = IF w = 0 THEN subCnt ELSE subCnt + 1
+         /\ H([a |-> "SubSend", b |-> b, forced |-> ~cancelled, wake |-> w, wseq |-> nseq])
+    /\ UNCHANGED <<quality, compCnt, closed, wpc, wit, status,
                    apc, acur, aproc, pend, nextSeq, inFlight, applied, results, finished,
                    cancelled, stopped, stopPc, drainPc, drainSnap, drainRead, drainVal>>
 
@@ -152,11 +180,14 @@ SubFail(b, why) ==
     /\ spc[b] = "send"
     /\ \/ why = "expired" /\ b \in MayExpire
        \/ why = "stopped" /\ cancelled
-    /\ spc' = [spc EXCEPT ![b] = why]
-    /\ IF Fixed THEN subCnt' = subCnt - 1 ELSE UNCHANGED subCnt
-    /\ SubRelease
-    /\ H([a |-> "SubFail", b |-> b, out |-> why, forced |-> Len(ch[0]) = Cap])
-    /\ UNCHANGED <<quality, seqOf, seqCtr, compCnt, ch, closed, wpc, wit, status,
+    /\ LET w == IF Fixed THEN Wake ELSE 0 IN
+         /\ spc' = [spc EXCEPT ![b] = why, ![IF w = 0 THEN b ELSE w] = IF w = 0 THEN why ELSE "send"]
+         /\ seqOf' = IF w = 0 THEN seqOf ELSE [seqOf EXCEPT ![w] = seqCtr]
+         /\ token' = IF Fixed THEN w ELSE token
+         /\ subCnt' = IF Fixed /\ w = 0 THEN subCnt - 1 ELSE subCnt
+         /\ H([a |-> "SubFail", b |-> b, out |-> why, forced |-> (Len(ch[0]) = Cap /\ (w = 0 \/ ~cancelled)),
+               wake |-> w, wseq |-> seqCtr])
+    /\ UNCHANGED <<quality, seqCtr, compCnt, ch, closed, wpc, wit, status,
                    apc, acur, aproc, pend, nextSeq, inFlight, applied, results, finished,
                    cancelled, stopped, stopPc, drainPc, drainSnap, drainRead, drainVal>>
 
@@ -390,7 +421,8 @@ DrainRead2 ==
 
 -----------------------------------------------------------------------------
 Progress ==   \* the steps the Go runtime will eventually schedule
-    \/ \E b \in Blocks : SubAlloc(b) \/ SubSend(b) \/ SubFail(b, "stopped") \/ SubAllocFail(b, "stopped")
+    \/ \E b \in Blocks : SubAlloc(b) \/ SubGo(b) \/ SubSend(b) \/ SubFail(b, "stopped") \/ SubAllocFail(b, "stopped")
+                           \/ SubWaitFail(b, "stopped")
     \/ \E w \in WIds : WTake(w[1], w[2]) \/ WEmit(w[1], w[2]) \/ WExit(w[1], w[2]) \/ WDrop(w[1], w[2])
     \/ ATake \/ AProc \/ AApplyEnd \/ AFwd \/ AExit
     \/ StopLock \/ \E s \in 1..NS : StopStage(s)
@@ -398,15 +430,15 @@ Progress ==   \* the steps the Go runtime will eventually schedule
     \/ DrainRead1 \/ DrainRead2
 
 Env ==        \* what the application and the clock may or may not do
-    \/ \E b \in Blocks : SubBegin(b) \/ SubFail(b, "expired") \/ SubAllocFail(b, "expired")
+    \/ \E b \in Blocks : SubBegin(b) \/ SubFail(b, "expired") \/ SubAllocFail(b, "expired") \/ SubWaitFail(b, "expired")
     \/ StopCancel \/ DrainBegin
 
 Next == Progress \/ Env
 
 \* per-goroutine weak fairness (the Go scheduler starves nobody)
 Fairness ==
-    /\ \A b \in Blocks : WF_vars(SubBegin(b) \/ SubAlloc(b) \/ SubSend(b) \/ SubFail(b, "stopped")
-                                  \/ SubAllocFail(b, "stopped"))
+    /\ \A b \in Blocks : WF_vars(SubBegin(b) \/ SubAlloc(b) \/ SubGo(b) \/ SubSend(b) \/ SubFail(b, "stopped")
+                                  \/ SubAllocFail(b, "stopped") \/ SubWaitFail(b, "stopped"))
     /\ \A w \in WIds : WF_vars(WTake(w[1], w[2]) \/ WEmit(w[1], w[2]) \/ WExit(w[1], w[2])
                                 \/ WDrop(w[1], w[2]))
     /\ WF_vars(ATake \/ AProc \/ AApplyEnd \/ AFwd \/ AExit)
@@ -422,7 +454,7 @@ Rng(s) == {s[i] : i \in DOMAIN s}
 NoDup(s) == \A i, j \in DOMAIN s : i # j => s[i] # s[j]
 
 TypeOK ==
-    /\ spc \in [Blocks -> {"wait", "begin", "send", "ok", "expired", "stopped"}]
+    /\ spc \in [Blocks -> {"wait", "begin", "waitTok", "send", "ok", "expired", "stopped"}]
     /\ \A i \in 0..NS : Len(ch[i]) <= Cap
     /\ inFlight \in 0..1
     /\ Fixed => compCnt <= subCnt
@@ -464,7 +496,7 @@ DrainSound == drainPc = "ret" => drainSnap \subseteq finished
 \* C42/C44 at quiescence: when nothing is cancelled and the pipeline cannot
 \* move any more, every successfully submitted block has been through it
 PipelineIdle ==
-    /\ \A b \in Blocks : spc[b] \notin {"begin", "send"}
+    /\ \A b \in Blocks : spc[b] \notin {"begin", "waitTok", "send"}
     /\ \A i \in 0..NS : ch[i] = <<>>
     /\ \A w \in WIds : wpc[w] = "idle"
     /\ apc = "idle"
